@@ -284,7 +284,7 @@ func lcSigEvent(c *lcCase) (ev lcSigEv, panicked bool, err error) {
 		panicked, _ = catch(func() {
 			ev.Accepted = user.VerifySignature(append([]byte(nil), c.ProfileKey...), append([]byte(nil), c.Signature...))
 		})
-	case "PublicKey.Verify":
+	case "PublicKey.Verify", "PublicKey.ReadFrom+Verify":
 		k, perr := x509.ParsePKIXPublicKey(c.ProfileKey)
 		if perr != nil {
 			return ev, false, fmt.Errorf("case profile key: %v", perr)
@@ -295,6 +295,20 @@ func lcSigEvent(c *lcCase) (ev lcSigEv, panicked bool, err error) {
 		}
 		ev.Expired = c.ExpiresIn < 0
 		pkey := user.PublicKey{ExpiresAt: time.Now().Add(time.Duration(c.ExpiresIn) * time.Second), PubKey: rk, Signature: append([]byte(nil), c.Signature...)}
+		if c.EP == "PublicKey.ReadFrom+Verify" {
+			// the server's path: the key arrives in its wire form and is decoded before it is verified
+			var buf bytes.Buffer
+			if _, werr := pkey.WriteTo(&buf); werr != nil {
+				return ev, false, fmt.Errorf("case wire form: %v", werr)
+			}
+			var got user.PublicKey
+			var rerr error
+			panicked, _ = catch(func() { _, rerr = got.ReadFrom(&buf) })
+			if panicked || rerr != nil {
+				return ev, panicked, nil // not accepted
+			}
+			pkey = got
+		}
 		panicked, _ = catch(func() { ev.Accepted = pkey.Verify() })
 	default:
 		return ev, false, fmt.Errorf("unknown entry point %q", c.EP)
@@ -578,6 +592,7 @@ func lcSigCases(env *vk.Env, ks *lcKeys, per int) ([]*lcCase, error) {
 			exp = -far
 		}
 		out = append(out, &lcCase{Kind: "sig", Origin: "forged", EP: "PublicKey.Verify", Cls: cls, ProfileKey: p, Signature: sig, ExpiresIn: exp})
+		out = append(out, &lcCase{Kind: "sig", Origin: "forged", EP: "PublicKey.ReadFrom+Verify", Cls: cls, ProfileKey: p, Signature: sig, ExpiresIn: exp})
 	}
 	for i := 0; i < per; i++ {
 		pi := rng.Intn(3)
@@ -796,11 +811,11 @@ func lcSigOf(c *lcCase, reason string) string {
 }
 
 func lcSigEP(c *lcCase) string {
-	if c.EP == "PublicKey.Verify" {
+	if c.EP == "PublicKey.Verify" || c.EP == "PublicKey.ReadFrom+Verify" {
 		if c.ExpiresIn < 0 {
-			return "PublicKey.Verify(expired key)"
+			return c.EP + "(expired key)"
 		}
-		return "PublicKey.Verify(unexpired key)"
+		return c.EP + "(unexpired key)"
 	}
 	return c.EP
 }
